@@ -647,6 +647,8 @@ type c16Pipe struct {
 	CallsAfter  int      `json:"calls_after"`
 	Refuse      []uint64 `json:"handler_refuses_terms"`    // requests answered with a response and an error
 	IdleBefore  []int    `json:"idle_before_ms,omitempty"` // per request: the pipeline sits idle this long before the request is sent (longer than the transport time-out: 2 s)
+	StallAfter  int      `json:"consumer_stalls_after,omitempty"` // the consumer stops draining after this many futures (0: never) ...
+	StallMs     int      `json:"consumer_stall_ms,omitempty"`     // ... for this long (longer than the transport time-out), while the sender keeps sending, also after an error
 	Detail      string   `json:"detail,omitempty"`
 	refuse      map[uint64]bool
 }
@@ -692,7 +694,11 @@ func c16RunPipeline(pc *c16Pipe) (detail string) {
 			case f := <-p.Consumer():
 				mu.Lock()
 				completed = append(completed, f)
+				n := len(completed)
 				mu.Unlock()
+				if pc.StallAfter > 0 && n == pc.StallAfter {
+					time.Sleep(time.Duration(pc.StallMs) * time.Millisecond) // a consumer that is busy elsewhere for a while
+				}
 			case <-stopDrain:
 				return
 			}
@@ -716,6 +722,9 @@ func c16RunPipeline(pc *c16Pipe) (detail string) {
 		req := &raft.AppendEntriesRequest{Term: uint64(1000 + i), PrevLogEntry: uint64(i), Entries: []*raft.Log{{Index: uint64(i), Data: c15Content(i, 30)}}}
 		f, err := p.AppendEntries(req, &raft.AppendEntriesResponse{})
 		if err != nil {
+			if pc.StallAfter > 0 {
+				continue // this caller keeps using the pipeline: whatever completes without error must still be its own answer
+			}
 			break
 		}
 		mu.Lock()
@@ -808,6 +817,11 @@ func TestC16Pipeline(t *testing.T) {
 			pc.IdleBefore = make([]int, pc.Depth)
 			pc.IdleBefore[rapid.IntRange(0, pc.Depth-1).Draw(rt, "idleAt")] = rapid.SampledFrom([]int{500, 2500, 7000}).Draw(rt, "idleMs")
 		}
+		if pc.BreakAt == 0 && rapid.IntRange(0, 3).Draw(rt, "stall") == 0 {
+			// the consumer is busy elsewhere for longer than the transport time-out while the sender keeps sending
+			pc.StallAfter = rapid.IntRange(1, pc.Depth).Draw(rt, "stallAfter")
+			pc.StallMs = rapid.SampledFrom([]int{2500, 4000}).Draw(rt, "stallMs")
+		}
 		// requests the handler answers with a response AND an error (no network fault)
 		for i := 0; i < pc.Depth+pc.CallsAfter; i++ {
 			if rapid.IntRange(0, 5).Draw(rt, "handlerErr") == 0 {
@@ -826,7 +840,7 @@ func TestC16Pipeline(t *testing.T) {
 		}
 		var detail string
 		sim.Bubble(t, func() { detail = c16RunPipeline(pc) })
-		r.Case(pc.Depth >= 2 && reordered, rep.Hash(pc.MaxInFlight, pc.Depth, fmt.Sprint(pc.Delays), pc.BreakAt, pc.CallsAfter, fmt.Sprint(pc.Refuse), fmt.Sprint(pc.IdleBefore)), map[bool]string{true: "connection-fault", false: "no-fault"}[pc.BreakAt > 0], map[bool]string{true: "handler-error-then-more-traffic", false: "no-handler-error"}[len(pc.Refuse) > 0], map[bool]string{true: "idle-pipeline-reused", false: "no-idle-period"}[len(pc.IdleBefore) > 0])
+		r.Case(pc.Depth >= 2 && reordered, rep.Hash(pc.MaxInFlight, pc.Depth, fmt.Sprint(pc.Delays), pc.BreakAt, pc.CallsAfter, fmt.Sprint(pc.Refuse), fmt.Sprint(pc.IdleBefore)), map[bool]string{true: "connection-fault", false: "no-fault"}[pc.BreakAt > 0], map[bool]string{true: "handler-error-then-more-traffic", false: "no-handler-error"}[len(pc.Refuse) > 0], map[bool]string{true: "idle-pipeline-reused", false: "no-idle-period"}[len(pc.IdleBefore) > 0], map[bool]string{true: "consumer-stalls-beyond-the-time-out", false: "consumer-keeps-draining"}[pc.StallAfter > 0])
 		if pc.Depth >= 2 && reordered && r.WantSample() {
 			r.Sample(map[string]any{"max_in_flight": pc.MaxInFlight, "depth": pc.Depth, "handler_delays_ms": pc.Delays, "break_after_bytes": pc.BreakAt, "calls_after": pc.CallsAfter, "handler_refuses": pc.Refuse})
 		}
